@@ -148,7 +148,7 @@ fn check_bad_module(c: &Case, srcs: &Vec<String>) -> CaseResult {
         Outcome::Err(_) => return CaseResult::skip("whole-compilation-err"),
     };
     let mut discs = vec![];
-    let need = c.faults.iter().filter(|(_, k)| k != "macro").count();
+    let need = c.faults.len();
     // an unsupported definition may still yield an item (e.g. an inverted range kept as written): then no warning is owed
     let generated_bad = (0..3).filter(|n| gen.contains(&format!("Bad{n}")) || gen.contains(&format!("BAD{n}"))).count();
     if warnings.len() + generated_bad < need {
@@ -176,7 +176,7 @@ impl Prop for C10 {
         "C10"
     }
     fn rule(&self) -> String {
-        "base: 16 definitions of every kind (constrained INTEGER, SEQUENCE, CHOICE, ENUMERATED, SEQUENCE OF, alias, SET, BIT STRING with named bits, hyphenated name; values of INTEGER, referenced INTEGER, string, OID, enumeral, CHOICE, named bits) with a dependency graph, in one module or split over two modules with IMPORTS, in forward and reverse textual order, both backends; faults: every way of replacing k=1 (quick) / k<=2 (thorough) definitions by a parseable-but-unsupported one of each kind {REAL, VideotexString, TIME type assignment, inverted range, reference to an undefined type, MACRO definition; REAL value (decimal and { mantissa, base, exponent } notation), value of an undefined type, ALL value}. Oracle: every top-level assignment of the faulted input is generated under its mangled name in its own module, or named by a warning, or covered by an anonymous warning (count), or is a MACRO/class/template; locality: every definition that does not transitively depend on a faulted one has exactly the items of the fault-free compilation. Non-trivial: the faulted input compiled to Ok and was accounted.".into()
+        "base: 16 definitions of every kind (constrained INTEGER, SEQUENCE, CHOICE, ENUMERATED, SEQUENCE OF, alias, SET, BIT STRING with named bits, hyphenated name; values of INTEGER, referenced INTEGER, string, OID, enumeral, CHOICE, named bits) with a dependency graph, in one module or split over two modules with IMPORTS, in forward and reverse textual order, both backends; faults: every way of replacing k=1 (quick) / k<=2 (thorough) definitions by a parseable-but-unsupported one of each kind {REAL, VideotexString, TIME type assignment, inverted range, reference to an undefined type, MACRO definition; REAL value (decimal and { mantissa, base, exponent } notation), value of an undefined type, ALL value}. Oracle: every top-level assignment of the faulted input is generated under its mangled name in its own module, or named by a warning, or covered by an anonymous warning (count), or is a class/object/template (a MACRO is none of these and must be warned about); locality: every definition that does not transitively depend on a faulted one has exactly the items of the fault-free compilation. Non-trivial: the faulted input compiled to Ok and was accounted.".into()
     }
     fn selftest(&self) -> Result<u64, String> {
         for layout in ["one", "two"] {
@@ -279,18 +279,19 @@ impl Prop for C10 {
         }
         let mut unaccounted: Vec<usize> = vec![];
         for (i, d) in DEFS.iter().enumerate() {
+            // a MACRO definition is not among the documented no-output categories (classes, objects, parameterized
+            // templates): it yields no item, so it has to be the subject of a warning
             let as_macro = c.faults.iter().any(|(j, k)| *j == i && k == "macro");
-            if as_macro {
-                continue; // MACRO definitions are a documented no-output category (a warning is welcome but not required)
-            }
             let m = p.module(module_of(c, i));
-            let present = m.map_or(false, |m| m.find(&rust_name(d, false)).is_some());
+            let present = !as_macro && m.map_or(false, |m| m.find(&rust_name(d, false)).is_some());
+            // (a definition replaced by a MACRO carries the macro's all-capital name)
+            let shown_name: String = if as_macro { d.name.to_uppercase() } else { d.name.to_string() };
             let named_in_warning = warnings.iter().any(|w| {
                 // the warning names the definition (avoid prefix matches such as Ty1 in Ty11)
                 let mut found = false;
                 let mut start = 0;
-                while let Some(pos) = w[start..].find(d.name) {
-                    let end = start + pos + d.name.len();
+                while let Some(pos) = w[start..].find(shown_name.as_str()) {
+                    let end = start + pos + shown_name.len();
                     let next = w[end..].chars().next();
                     if !next.map_or(false, |ch| ch.is_ascii_alphanumeric() || ch == '-') {
                         found = true;
